@@ -742,7 +742,7 @@ class P(Prop):
                 "utils.makeRPN at character level, Track.__prime/__double_prime, Track.__evaluateRPN, Track.__applyOperation, the purge of "
                 "Track.operate(str), create/update/remove/getAnalyticalFeature and addListToAF as an insertion-ordered name->column table, "
                 "operators Adder Substracter Multiplier Divider Power Above Below, ScalarAdder ScalarSubstracter ScalarRevSubstracter "
-                "ScalarMuliplier ScalarDivider ScalarRevDivider (single divisions computed before the output feature is created, fix 5676890) ScalarPower ScalarRevPower ScalarAbove/Below/RevAbove/RevBelow, "
+                "ScalarMuliplier ScalarDivider ScalarRevDivider (single divisions, coded like the other scalar operators: fixes 5676890, 2dd86ce) ScalarPower ScalarRevPower ScalarAbove/Below/RevAbove/RevBelow, "
                 "Integrator Differentiator SecondOrderFiniteDiff Rectifier Sqrt Log (with its track[out]=temp storing and None result) Diode Sign "
                 "Exp Cos Sin Tan (through Apply), Sum Averager Variance StdDev Mse Rmse Mad Min Max Median Argmin Argmax (index None until a value is taken, fix b728412); Track.operate(operator, ...) "
                 "with the default output name; Track.__getitem__ with a string (expression or feature name); Track.operate(expression, externals) "
